@@ -86,6 +86,10 @@ class ApiRun:
             def __eq__(self, other):
                 return self is other
 
+            def on_thread_stop(self):
+                self._rec["stops"] = self._rec.get("stops", 0) + 1
+                self._rec.setdefault("stop_seqs", []).append(sim.next_seq())
+
             def on_thread_start(self):
                 if self._rec["fault"] == "start":
                     sim.fault_fired("emitter_start_fail")
@@ -102,6 +106,11 @@ class ApiRun:
                 if step[0] == "sleep":
                     self.stopped_event.wait(step[1] / TICKS)
                     return
+                if step[0] == "die":
+                    # the emitter's own code fails: its thread ends, but stop()/unschedule() must still run its
+                    # on_thread_stop() hook (that is where an emitter releases what on_thread_start() acquired)
+                    self._rec["died"] = True
+                    raise RuntimeError("scripted emitter failure")
                 path = f"{self.watch.path}/i{self._idx}e{self._n}"
                 self._n += 1
                 ev = wev.FileCreatedEvent(path)
@@ -322,6 +331,8 @@ def oracle_c05(run: ApiRun):
                 continue
             if inst["inst"] in r.get("alive_at_ret", []):
                 v.append(Violation("emitter-alive", f"C05:emitter-alive-after-{r['op']}-returned", f"emitter instance {inst['inst']} of {inst['key']} still alive when {r['op']} returned at {r['ret']}"))
+            if not any(sq < r["ret"] for sq in inst.get("stop_seqs", [])):
+                v.append(Violation("emitter-not-stopped", f"C05:emitter-on_thread_stop-not-called-by-{r['op']}" + (":dead-emitter" if inst.get("died") else ""), f"emitter instance {inst['inst']} of {inst['key']} was never told to stop although {r['op']} returned at {r['ret']}"))
             late = [q for q in h["queued"] if q["inst"] == inst["inst"] and q["q0"] > r["ret"]]
             if late:
                 v.append(Violation("emitter-produces", f"C05:emitter-produces-after-{r['op']}-returned", f"emitter instance {inst['inst']} queued {late[0]['path']} at {late[0]['q0']} after {r['op']} returned at {r['ret']}"))
@@ -346,6 +357,8 @@ def draw_concurrent_case(rng: random.Random, cfg: random.Random, *, reentrant=Tr
             if rng.random() < 0.3:
                 sc.append(["sleep", rng.choice([1, 64, 512])])
             sc.append(["ev"])
+        if rng.random() < 0.08:
+            sc.insert(rng.randrange(len(sc) + 1), ["die"])
         scripts[str(i)] = sc
     nact = rng.choice([1, 2, 2, 3])
     owner = [rng.randrange(nact) for _ in range(nspec)]
